@@ -95,6 +95,11 @@ func gen(r *harn.Rng, tier string) interface{} {
 		default:
 			op.Kind, op.DurNs = "future", durs[r.Intn(len(durs))]
 		}
+		if i > 0 && (sc.Sets[len(sc.Sets)-1].Kind == "past" || sc.Sets[len(sc.Sets)-1].Kind == "epoch") && r.Bool(0.3) {
+			// a passed deadline replaced by another passed one while reads are under way: there is no
+			// instant at which a read may get through
+			op.Kind, op.DurNs, op.SleepNs = "past", durs[r.Intn(len(durs))], int64(r.Pick(0, 0, 1000))
+		}
 		sc.Sets = append(sc.Sets, op)
 		if r.Bool(0.15) {
 			// the other direction's deadline is set or cleared in between
@@ -571,6 +576,31 @@ func run(env *simrt.Env, sci interface{}) {
 			nData++
 			if !okLen || nData > nWrites {
 				env.Fail("C10/read-without-data", "%s: read #%d [%s, %s] returned (%d, nil) although no such datagram was waiting (%d reads have succeeded, %d datagrams were written): a read is released by data or by a timeout error, nothing else", sc.Conn, i, rel(r.tInv), rel(r.tRet), r.n, nData, len(sc.Writes))
+				return
+			}
+		}
+		if overlapping {
+			// Sets ran while the read was under way: which of them ruled is not determined, but when
+			// every candidate (the last completed ones and all overlapping ones) put the deadline
+			// in the past, the deadline had passed at every instant of the read
+			cands := possiblyLast(r.inv)
+			isCand := map[int]bool{}
+			for _, ci := range cands {
+				isCand[ci] = true
+			}
+			for si, st := range sets {
+				if !isCand[si] && st.inv < r.ret && (st.ret == 0 || st.ret > r.inv) {
+					cands = append(cands, si)
+				}
+			}
+			allPast := len(possiblyLast(r.inv)) > 0
+			for _, ci := range cands {
+				if !sets[ci].past || sets[ci].val.IsZero() {
+					allPast = false
+				}
+			}
+			if allPast {
+				env.Fail("C10/expiry-not-persistent", "%s: read #%d [%s, %s] returned (%d, %v) although every deadline set before or during it (%d Sets) was already in the past when it was set", sc.Conn, i, rel(r.tInv), rel(r.tRet), r.n, r.err, len(cands))
 				return
 			}
 		}
